@@ -451,6 +451,13 @@ def param_name(arg):
     return names[-1] if names else '_'
 
 
+def param_type(arg):
+    for i, (k, t) in enumerate(arg):
+        if k == 'p' and t == ':':
+            return ' '.join(tt for _k, tt in arg[i + 1:])
+    return ''
+
+
 def extract_fns(toks, lo, hi, ctx=()):
     """yield (fn name, wrapper context tuple, impl header text, body dict) for every `fn` with a block body"""
     i = lo
@@ -498,7 +505,16 @@ def extract_fns(toks, lo, hi, ctx=()):
                 j += 1
             impl_hdr = ' '.join(tt for _k, tt in toks[i:j])
             jend = match_close(toks, j)
+            impl_out = ''
+            for m in range(j + 1, jend - 2):
+                if toks[m] == ('id', 'type') and toks[m + 1] == ('id', 'Output') and toks[m + 2] == ('p', '='):
+                    e = m + 3
+                    while toks[e] != ('p', ';'):
+                        e += 1
+                    impl_out = ' '.join(tt for _k, tt in toks[m + 3:e])
+                    break
             for x in extract_fns(toks, j + 1, jend, ctx + pending):
+                x[3].setdefault('impl_out', impl_out)
                 yield (x[0], x[1], impl_hdr, x[3])
             pending = ()
             i = jend + 1
@@ -509,12 +525,17 @@ def extract_fns(toks, lo, hi, ctx=()):
             # skip generics, params, return type, where clause up to the body '{' at depth 0
             depth = 0
             params = None
+            ptypes = []
+            sig_from = None
             while j < hi:
                 kk, tt = toks[j]
                 if kk == 'p' and tt in '([':
                     jc = match_close(toks, j)
                     if params is None and tt == '(' and depth <= 0:
-                        params = [param_name(a) for a in split_args(toks, j + 1, jc, angle=True)]
+                        pargs = split_args(toks, j + 1, jc, angle=True)
+                        params = [param_name(a) for a in pargs]
+                        ptypes = [param_type(a) for a in pargs]
+                        sig_from = jc + 1
                     j = jc + 1
                     continue
                 if kk == 'p' and tt == '<': depth += 1
@@ -533,6 +554,8 @@ def extract_fns(toks, lo, hi, ctx=()):
                 except (BodyError, IndexError) as ex:
                     body = {'lets': [], 'result': ['opaque', 'unparsed: %s' % ex]}
                 body['params'] = params or []
+                body['ptypes'] = ptypes
+                body['sig'] = ' '.join(tt for _k, tt in toks[(sig_from or j):j])
                 yield (name, ctx + pending, '', body)
                 pending = ()
                 i = jend + 1
@@ -861,5 +884,140 @@ def collect(repo_src_reader, files):
             except Exception as ex:      # noqa
                 lean = '(.opaque %d)' % names.code('opaque: untranslatable %s' % ex)
             out.append((key, tl.nparams, lean))
+            body['hdr'] = hdr
             raw[key] = body
     return out, names, raw
+
+
+# ---------------------------------------------------------------------------------------------
+# signatures: output dimension, kind bounds and per-exponent typenum bounds of every operator impl
+# ---------------------------------------------------------------------------------------------
+ARG_RE = r'(?:(\w+) :: \$symbol|\$crate :: typenum :: (Z0|P2|P3)|(E))'
+OUT_OP_RE = _re.compile(
+    r'\$quantities < \$ \( \$crate :: typenum :: (\w+) < ' + ARG_RE + r'(?: , ' + ARG_RE + r')? > (?:, )?\) (?:, )?\+ (\w+ :: Kind )?>')
+TOPS = {'Sum': 'sum', 'Diff': 'diff', 'Prod': 'prod', 'Negate': 'negate', 'PartialQuot': 'partialQuot', 'Quot': 'quot'}
+BOUND_TRAITS = {'Add': 'sum', 'Sub': 'diff', 'Mul': 'prod', 'Neg': 'negate', 'PartialDiv': 'partialQuot', 'Div': 'quot'}
+
+
+def _arg(g):
+    d, c, e = g
+    if d:
+        return '(.dim %s)' % typ(d)
+    if c:
+        return '.' + c.lower()
+    if e:
+        return '.e'
+    return '.none'
+
+
+def quantity_args(text):
+    """[(dimension arg text, units arg text)] of every `Quantity < A , B , C >` occurrence, in order"""
+    t = text.split()
+    out = []
+    i = 0
+    while i < len(t) - 1:
+        if t[i] in ('Quantity', 'ThermodynamicTemperature', 'TemperatureInterval') and t[i + 1] == '<':
+            alias = t[i] != 'Quantity'
+            depth, j, args, cur = 1, i + 2, [], []
+            while j < len(t) and depth > 0:
+                x = t[j]
+                if x == '<': depth += 1
+                elif x == '>': depth -= 1
+                elif x == '>>': depth -= 2
+                if depth <= 0:
+                    break
+                if x == ',' and depth == 1:
+                    args.append(' '.join(cur)); cur = []
+                else:
+                    cur.append(x)
+                j += 1
+            if cur:
+                args.append(' '.join(cur))
+            if alias and args:
+                out.append((t[i], args[0]))
+            elif len(args) >= 2:
+                out.append((args[0], args[1]))
+            i += 2          # nested occurrences are visited too
+            continue
+        i += 1
+    return out
+
+
+def parse_sig(hdr, impl_out, sigtext, markers, ptypes=()):
+    """-> Lean `Uom.Sig.Sig` literal"""
+    ret, _, fn_where = sigtext.partition(' where ')
+    ret = ret.replace('->', '', 1).strip()
+    out_text = impl_out if (impl_out and ret in ('Self :: Output', '')) else ret
+    hdr_main, _, hdr_where = hdr.partition(' where ')
+    where = hdr_where + ' , ' + fn_where
+    # operand dimension parameters
+    lhs = rhs = None
+    m = _re.search(r' for Quantity < (\w+) ,', hdr_main)
+    if m:
+        lhs = m.group(1)
+    elif _re.match(r'impl (< [^{]*? > )?(?:[\w$]+ :: )*Quantity < (\w+) ,', hdr_main):
+        lhs = _re.match(r'impl (< [^{]*? > )?(?:[\w$]+ :: )*Quantity < (\w+) ,', hdr_main).group(2)
+    m = _re.search(r'< Quantity < (\w+) ,[^>]*>+ for ', hdr_main)
+    if m:
+        rhs = m.group(1)
+    elif lhs and _re.search(r':: (Add|Sub|Rem|AddAssign|SubAssign|RemAssign|PartialEq|PartialOrd) for Quantity <', hdr_main):
+        rhs = lhs       # no generic argument: `Rhs = Self`
+    elif lhs and len(ptypes) >= 2:
+        # a method: the dimension parameter of its first quantity argument
+        pt = ptypes[1]
+        mm = _re.match(r'(?:& )?Quantity < (\w+) ,', pt)
+        if pt in ('Self', '& Self'):
+            rhs = lhs
+        elif mm:
+            rhs = mm.group(1)
+    # base-units parameters of the two operands
+    lhs_u = rhs_u = None
+    qa = quantity_args(hdr_main)
+    if ' for ' in hdr_main:
+        before, _, after = hdr_main.partition(' for ')
+        qb, qf = quantity_args(before), quantity_args(after)
+        if qf:
+            lhs_u = qf[0][1]
+        if qb:
+            rhs_u = qb[0][1]
+        elif lhs_u and rhs == lhs:
+            rhs_u = lhs_u
+    elif qa:
+        lhs_u = qa[0][1]
+        if len(ptypes) >= 2:
+            qp = quantity_args(ptypes[1])
+            if ptypes[1] in ('Self', '& Self'):
+                rhs_u = lhs_u
+            elif qp:
+                rhs_u = qp[0][1]
+    # output
+    m = OUT_OP_RE.search(out_text)
+    if out_text == 'Self':
+        out = '.self'
+    elif _re.fullmatch(r'Quantity < (\w+) , \w+ , V >', out_text):
+        out = '(.same %s)' % typ(_re.fullmatch(r'Quantity < (\w+) , \w+ , V >', out_text).group(1))
+    elif m:
+        op = TOPS.get(m.group(1), 'other')
+        a = _arg(m.group(2, 3, 4))
+        b = _arg(m.group(5, 6, 7))
+        out = '(.op .%s %s %s %s)' % (op, a, b, 'true' if m.group(8) else 'false')
+    elif out_text in ('', '( )'):
+        out = '.unit'
+    else:
+        out = '(.named %d)' % (sum(ord(c) for c in out_text) % 100000)
+    # kind bounds
+    kb = []
+    for d, mk in _re.findall(r'(\w+) :: Kind : \$crate :: marker :: (\w+)', where):
+        if mk in markers:
+            kb.append('(%s, %d)' % (typ(d), markers.index(mk)))
+        else:
+            kb.append('(%s, 999)' % typ(d))
+    # per-exponent bounds  `$( D::$symbol : Trait<Arg> , …)+`
+    sb = []
+    for d, tr, a1, a2, a3 in _re.findall(
+            r'\$ \( (\w+) :: \$symbol : \$crate :: (?:lib :: ops|typenum) :: (\w+)(?: < ' + ARG_RE + r' >)?', where):
+        sb.append('(%s, .%s, %s)' % (typ(d), BOUND_TRAITS.get(tr, 'other'), _arg((a1, a2, a3))))
+    for a1, tr, d in _re.findall(r'\$ \( \$crate :: typenum :: (Z0) : \$crate :: lib :: ops :: (\w+) < (\w+) :: \$symbol >', where):
+        sb.append('(%s, .%s, .z0)' % (typ(d), BOUND_TRAITS.get(tr, 'other')))
+    opt = lambda x: '(some %s)' % typ(x) if x else 'none'
+    return '⟨%s, %s, %s, %s, %s, [%s], [%s]⟩' % (opt(lhs), opt(rhs), opt(lhs_u), opt(rhs_u), out, ', '.join(kb), ', '.join(sb))
